@@ -69,9 +69,11 @@ NoDup(seq) == \A i, j \in DOMAIN seq : i # j => seq[i] # seq[j]
 \* nothing to do when no fee row is set; otherwise the request must offer the
 \* same denom and at least the required amount, the creator must hold the
 \* required amount, and exactly the required amount is moved to `mod` and burnt
-\* (a literal Coins{fee}: a stored zero-amount fee is rejected by x/bank).
+\* A stored fee of zero (genesis validation accepts it) charges nothing; before
+\* the repair recorded in known_findings.txt the zero coin went to x/bank, which
+\* rejected it, so no class or basket could be created under such a genesis.
 ChargeFee(s, required, offered, payer, mod) ==
-  IF ~required.set THEN Ok(s)
+  IF ~required.set \/ required.amt <= 0 THEN Ok(s)
   ELSE IF ~offered.set \/ offered.denom # required.denom
           \/ offered.amt < required.amt
           \/ CoinBal(s, payer, required.denom) < required.amt THEN Fail(s)
